@@ -21,16 +21,17 @@ EXTENDS Integers, Sequences, FiniteSets, TLC
 
 CONSTANTS V, Byz,        \* validators, Byzantine subset
           W, Thr,        \* weights, threshold (justified iff weight > Thr)
-          Br, D,         \* branching factor, depth of the round tree
-          MaxNodes,      \* bound on round nodes that ever receive a vote
+          Nodes,         \* the round tree explored: a prefix-closed set of paths (<<>> = the first round)
+          ByzMax,        \* TRUE: Byzantine validators are not state - they are present in every round with whatever
+                         \* helps (a vote for justification, a COM vote for commitment); FALSE: explicit votes
+          MaxNodes,      \* bound on round nodes that ever receive an (honest, if ByzMax) vote
+          MaxVotes,      \* bound on the rounds one honest validator votes in
+          RootVotes,     \* FALSE: the first round (no COM possible there) stays empty
           Variant        \* "asis" | seeded design errors: "castq" (casts compared with q instead of q-1),
                          \* "norule" (no conflict check), "finq" (finalize on justified instead of committed),
                          \* "geq" (threshold >=), "dropcasts" (casts forgotten when a new one is made)
 Honest == V \ Byz
 
-RECURSIVE Paths(_)
-Paths(d) == IF d = 0 THEN {<<>>} ELSE LET P == Paths(d - 1) IN P \cup {Append(p, i) : p \in {x \in P : Len(x) = d - 1}, i \in 1..Br}
-Nodes == Paths(D)
 Par(c) == SubSeq(c, 1, Len(c) - 1)
 IsAnc(a, b) == Len(a) <= Len(b) /\ SubSeq(b, 1, Len(a)) = a
 SameChain(a, b) == IsAnc(a, b) \/ IsAnc(b, a)
@@ -43,15 +44,16 @@ RECURSIVE SumW(_)
 SumW(S) == IF S = {} THEN 0 ELSE LET x == CHOOSE x \in S : TRUE IN W[x] + SumW(S \ {x})
 Over(S) == IF Variant = "geq" THEN SumW(S) >= Thr ELSE SumW(S) > Thr
 
-VotersIn(f, c) == {v \in V : f[c][v] # "n"}
-ComIn(f, c) == {v \in V : f[c][v] = "c"}
+Placed(f, c) == {v \in V : f[c][v] # "n"}
+VotersIn(f, c) == Placed(f, c) \cup (IF ByzMax THEN Byz ELSE {})
+ComIn(f, c) == {v \in V : f[c][v] = "c"} \cup (IF ByzMax THEN Byz ELSE {})
 JustIn(f, c) == Over(VotersIn(f, c))
 CommIn(f, c) == Over(ComIn(f, c))
 RECURSIVE QIn(_, _)
 QIn(f, c) == (IF c = <<>> THEN 0 ELSE QIn(f, Par(c))) + (IF JustIn(f, c) THEN 1 ELSE 0)
-Exists(c) == c = <<>> \/ VotersIn(vt, c) # {}
-IsLeaf(c) == ~\E k \in Nodes : Len(k) = Len(c) + 1 /\ Par(k) = c /\ Exists(k)
-Used == Cardinality({c \in Nodes : VotersIn(vt, c) # {}})
+Exists(c) == c = <<>> \/ ByzMax \/ Placed(vt, c) # {}
+IsLeaf(c) == ~\E k \in Nodes : k # c /\ IsAnc(c, k) /\ Placed(vt, k) # {}
+Used == Cardinality({c \in Nodes : Placed(vt, c) # {}})
 
 \* nearest justified ancestor-or-self
 RECURSIVE NJ(_, _)
@@ -66,7 +68,7 @@ Newest(f) == LET F == FinSet(f) IN IF F = {} THEN <<>> ELSE CHOOSE a \in F : \A 
 
 \* ShouldVote for honest v about to add a block to round c
 Rule(v, c) ==
-  LET hasVotes == VotersIn(vt, c) # {}
+  LET hasVotes == Placed(vt, c) # {}
       x == IF hasVotes THEN c ELSE Par(c)                 \* the round the parent block is in
   IN IF c = <<>> THEN FALSE                               \* no COM in the first round
      ELSE LET hq == QIn(vt, x) IN
@@ -81,11 +83,13 @@ Init == /\ vt = [c \in Nodes |-> [v \in V |-> "n"]]
         /\ casts = [v \in Honest |-> {}]
 
 CanTouch(c) == /\ (c = <<>> \/ Exists(Par(c)))
+               /\ (RootVotes \/ c # <<>>)
                /\ IsLeaf(c)
-               /\ (VotersIn(vt, c) # {} \/ Used < MaxNodes)
+               /\ (Placed(vt, c) # {} \/ Used < MaxNodes)
                \* a round follows a round that happened: the parent round is not empty (root may be)
 HVote(v, c) ==
   /\ CanTouch(c) /\ vt[c][v] = "n"
+  /\ Cardinality({k \in Nodes : vt[k][v] # "n"}) < MaxVotes
   /\ LET bit == IF Rule(v, c) THEN "c" ELSE "w"
          f2 == [vt EXCEPT ![c][v] = bit]
      IN /\ vt' = f2
@@ -99,7 +103,7 @@ BVote(z, c, bit) ==
   /\ UNCHANGED casts
 
 Next == \/ \E v \in Honest, c \in Nodes : HVote(v, c)
-        \/ \E z \in Byz, c \in Nodes, bit \in {"w", "c"} : BVote(z, c, bit)
+        \/ ~ByzMax /\ \E z \in Byz, c \in Nodes, bit \in {"w", "c"} : BVote(z, c, bit)
 Spec == Init /\ [][Next]_vars
 
 ----
@@ -109,5 +113,4 @@ FinalitySafety == \A a, b \in FinSet(vt) : SameChain(a, b)
 \* vacuity probes (must be violated)
 NeverFinalizes == FinSet(vt) = {}
 NeverTwoBranchesJustified == ~\E a, b \in Nodes : ~SameChain(a, b) /\ JustIn(vt, a) /\ JustIn(vt, b)
-NeverRefusesCom == \A v \in Honest : \A c \in Nodes : vt[c][v] = "w" => (c = <<>> \/ QIn(vt, c) = 0 \/ TRUE)
 ====
